@@ -301,7 +301,13 @@ class CSVWriter(rbql_engine.RBQLOutputWriter):
         if self.broken_pipe:
             return
         if self.close_stream_on_finish:
-            self.stream.close()
+            try:
+                self.stream.close() # Closing flushes: the first write the consumer of a small output ever sees, so this is where a broken pipe (FIFO, /dev/stdout) shows up
+            except broken_pipe_exception as exc:
+                if broken_pipe_exception == IOError:
+                    if exc.errno != EPIPE:
+                        raise
+                self.broken_pipe = True
         else:
             try:
                 self.stream.flush() # This flush still can throw if all flushes before were sucessfull! And the exceptions would be printed anyway, even if it was explicitly catched just couple of lines after.
